@@ -481,3 +481,78 @@ def wrapping_loops(f):
       if it[0] in ('comb', 'ff'):
         for y in it[2]: st(y, m['name'])
   return hits
+
+# ---------------------------------------------------------------------- signature: constant index outside the declared range
+def oob_constant_indices(f):
+  """python mirror of SvEval.const_idx_in_range (Coq decides well-formedness; this only names the cause for the key):
+  [(module, text of the select, index, declared size)]"""
+  hits = []
+  for m in f.modules:
+    def visit(e):
+      if e[0] == 'index' and e[2][0] in ('lit', 'num'):
+        v = e[2][2] % (1 << e[2][1]) if e[2][0] == 'lit' else e[2][1]
+        t = py_type_of(m, e[1])
+        if t is None: return
+        size = t[1][0] if t[1] else (t[0][1] if t[0][0] == 'arr' else svparse.pwidth(t[0]))
+        if not (0 <= v < size): hits.append((m['name'], expr_text(e), v, size))
+    for e in svparse.module_exprs(m): svparse.walk_exprs(e, visit)
+  return hits
+
+# ---------------------------------------------------------------------- the flat port map the Yosys translator reports
+def pname_of(chain, path=()):
+  """the spelling gen_mapped_ports uses for a leaf: bank[0].lane[1].msg.f0[2].x"""
+  t = '.'.join(n + ''.join(f'[{i}]' for i in ix) for n, ix in chain)
+  return t + ''.join(('.' + s_[2]) if s_[0] == 'f' else f'[{s_[1]}]' for s_ in path)
+
+def probe_range(T, path):
+  """bit range of the leaf at `path` inside T.to_bits(), found by setting that leaf to all ones (independent of leaf_ranges)"""
+  from pymtl3 import Bits
+  inst = T()
+  holder, key, cur = None, None, inst
+  for st in path:
+    holder, key = cur, (st[2] if st[0] == 'f' else st[1])
+    cur = getattr(cur, key) if st[0] == 'f' else cur[key]
+  ones = Bits(cur.nbits, (1 << cur.nbits) - 1)
+  if isinstance(holder, list): holder[key] = ones
+  else: setattr(holder, key, ones)
+  v = int(inst.to_bits())
+  lo = (v & -v).bit_length() - 1
+  return lo, v.bit_length()
+
+def check_flat_port_map(top, ports, mod):
+  """compare utility.gen_mapped_ports(top) -- the flat port map handed to the import pass -- with the ports of the emitted
+  module and with the to_bits() bit range of every leaf.  returns [(class, message)]"""
+  from pymtl3.passes.backends.yosys.util.utility import gen_mapped_ports
+  from pymtl3.passes.rtlir import RTLIRDataType as rdt
+  problems = []
+  entries = gen_mapped_ports(top, {})
+  modports = {pn: (dr, svparse.pwidth(t), dims) for dr, (pn, t, dims) in mod['ports']}
+  seen = set()
+  rep = {}
+  for pnames, vname, rtype, _ in entries:
+    pname = pnames[0]
+    dt = rtype.get_dtype()
+    rep[pname] = vname
+    if not isinstance(dt, rdt.Vector):
+      problems.append(('entry-not-a-leaf', f'map entry {pname} -> {vname} has data type {dt}, not a vector')); continue
+    if vname not in modports:
+      problems.append(('entry-not-a-port', f'map entry {pname} -> {vname}: the emitted module has no port {vname}')); continue
+    if vname in seen: problems.append(('duplicate-entry', f'port {vname} is mapped twice'))
+    seen.add(vname)
+    dr, w, dims = modports[vname]
+    if dims or w != dt.get_length(): problems.append(('width', f'map entry {pname} -> {vname} is {dt.get_length()} bits, the emitted port has {w} bits {dims}'))
+    if dr != rtype.get_direction(): problems.append(('direction', f'map entry {pname} -> {vname} is {rtype.get_direction()}, the emitted port is {dr}'))
+  for pn in modports:
+    if pn not in seen and pn not in ('clk',) and not any(v == pn for v in rep.values()):
+      problems.append(('port-not-mapped', f'emitted port {pn} does not occur in the flat port map'))
+  # every leaf of every port of the component, with the bit range it has in to_bits()
+  for rp, isin, ch, T in ports:
+    sh = shape_of(T)
+    for path, lo, hi in leaf_ranges(sh):
+      pname = pname_of(ch, path); want = ys_name(ch) + leaf_suffix(path)
+      if path:
+        plo, phi = probe_range(T, path)
+        if (plo, phi) != (lo, hi): problems.append(('bit-range', f'leaf {pname}: to_bits() places it at [{plo},{phi}), the layout says [{lo},{hi})'))
+      if pname not in rep: problems.append(('leaf-not-mapped', f'leaf {pname} of port {rp} has no entry in the flat port map'))
+      elif rep[pname] != want: problems.append(('leaf-name', f'leaf {pname} is mapped to {rep[pname]}, expected {want}'))
+  return problems
